@@ -820,7 +820,129 @@ func normFacts(fs []condFact) []condFact {
 			break
 		}
 		out = append(out, condFact{v, pol, f.If})
+		// a condition extracted into a named predicate (`if isBackendErrorStatus(status)`, `state.tripped()`): what the
+		// predicate's answer implies about the expression it returns also holds here
+		out = append(out, expandPredicateFact(condFact{v, pol, f.If}, 2)...)
 	}
+	return out
+}
+
+// paramBindings: for parameters of predicates whose facts were expanded, the arguments they stand for at the call
+// sites the expansion came from (value-resolving helpers hop from the parameter to these).
+var paramBindings = map[*ssa.Parameter][]ssa.Value{}
+
+func bindParam(p *ssa.Parameter, arg ssa.Value) {
+	for _, a := range paramBindings[p] {
+		if a == arg {
+			return
+		}
+	}
+	paramBindings[p] = append(paramBindings[p], arg)
+}
+
+// expandPredicateFact: cf says `p(args) == pol` for a small repo predicate p. Enumerates the (acyclic) paths through p,
+// keeps those on which it can answer pol, and returns the facts common to all of them — branch conditions taken plus,
+// where the answer is a computed value, that value having the polarity. The facts are about p's own SSA values; its
+// parameters are bound to the call's arguments in paramBindings.
+func expandPredicateFact(cf condFact, depth int) []condFact {
+	call, ok := cf.Cond.(*ssa.Call)
+	if !ok || depth == 0 || theCtx == nil {
+		return nil
+	}
+	fn := call.Call.StaticCallee()
+	if fn == nil || fn.Blocks == nil || len(fn.Blocks) > 12 || !theCtx.inRepo(fn) {
+		return nil
+	}
+	res := fn.Signature.Results()
+	if res.Len() != 1 || res.At(0).Type().String() != "bool" {
+		return nil
+	}
+	for _, b := range fn.Blocks { // no loops
+		for _, s := range b.Succs {
+			if s.Dominates(b) {
+				return nil
+			}
+		}
+	}
+	type pf struct {
+		v   ssa.Value
+		pol bool
+	}
+	var paths [][]pf
+	var walk func(b, prev *ssa.BasicBlock, acc []pf, steps int)
+	walk = func(b, prev *ssa.BasicBlock, acc []pf, steps int) {
+		if steps > 24 || len(paths) > 64 {
+			return
+		}
+		switch last := lastInstr(b).(type) {
+		case *ssa.Return:
+			if len(last.Results) != 1 {
+				return
+			}
+			v := last.Results[0]
+			if ph, isPhi := v.(*ssa.Phi); isPhi && ph.Block() == b && prev != nil {
+				for i, p := range b.Preds {
+					if p == prev && i < len(ph.Edges) {
+						v = ph.Edges[i]
+					}
+				}
+			}
+			if k, isK := v.(*ssa.Const); isK && k.Value != nil {
+				if (k.Value.String() == "true") == cf.True {
+					paths = append(paths, append([]pf{}, acc...))
+				}
+				return
+			}
+			paths = append(paths, append(append([]pf{}, acc...), pf{v, cf.True}))
+		case *ssa.If:
+			walk(b.Succs[0], b, append(append([]pf{}, acc...), pf{last.Cond, true}), steps+1)
+			walk(b.Succs[1], b, append(append([]pf{}, acc...), pf{last.Cond, false}), steps+1)
+		case *ssa.Jump:
+			walk(b.Succs[0], b, acc, steps+1)
+		}
+	}
+	walk(fn.Blocks[0], nil, nil, 0)
+	if len(paths) == 0 {
+		return nil
+	}
+	common := map[pf]bool{}
+	for _, f := range paths[0] {
+		common[f] = true
+	}
+	for _, p := range paths[1:] {
+		has := map[pf]bool{}
+		for _, f := range p {
+			has[f] = true
+		}
+		for f := range common {
+			if !has[f] {
+				delete(common, f)
+			}
+		}
+	}
+	if len(common) == 0 {
+		return nil
+	}
+	for i, prm := range fn.Params {
+		if i < len(call.Call.Args) {
+			bindParam(prm, call.Call.Args[i])
+		}
+	}
+	var out []condFact
+	for f := range common {
+		v, pol := f.v, f.pol
+		for {
+			if u, ok := v.(*ssa.UnOp); ok && u.Op == token.NOT {
+				v, pol = u.X, !pol
+				continue
+			}
+			break
+		}
+		nf := condFact{v, pol, cf.If}
+		out = append(out, nf)
+		out = append(out, expandPredicateFact(nf, depth-1)...)
+	}
+	sort.Slice(out, func(i, j int) bool { return out[i].Cond.Pos() < out[j].Cond.Pos() })
 	return out
 }
 
@@ -1114,4 +1236,31 @@ func virtualReturns(f *ssa.Function, idx int) []vret {
 		expand(v, ret, condFacts(ret.Block()))
 	}
 	return out
+}
+
+// predicateExpr: v is the call of a one-expression repo predicate (`func isHealthy(r Result) bool { return r.Status ==
+// Healthy }`): returns the expression it returns (the predicate's own SSA value; its parameters are bound to the
+// call's arguments). Anything else is returned unchanged.
+func predicateExpr(v ssa.Value) ssa.Value {
+	for d := 0; d < 3; d++ {
+		call, ok := v.(*ssa.Call)
+		if !ok || theCtx == nil {
+			return v
+		}
+		fn := call.Call.StaticCallee()
+		if fn == nil || len(fn.Blocks) != 1 || !theCtx.inRepo(fn) || fn.Signature.Results().Len() != 1 {
+			return v
+		}
+		ret, ok := lastInstr(fn.Blocks[0]).(*ssa.Return)
+		if !ok || len(ret.Results) != 1 {
+			return v
+		}
+		for i, prm := range fn.Params {
+			if i < len(call.Call.Args) {
+				bindParam(prm, call.Call.Args[i])
+			}
+		}
+		v = ret.Results[0]
+	}
+	return v
 }
